@@ -691,6 +691,7 @@ def rect_edge(shape):
 # ------------------------------------------------------------------------------------------------
 class C05(PropertyCheck):
     pid = "C05"
+    loop_tie_modules = ["LoopsChol"]  # _cholupdate tied to Model.Impl.cholupdate for all sizes (design_notes/TIES_C05chol.md)
     title = "(non-negative) least-squares optimum"
     nontrivial_rule = (
         "solver/recon case: the returned solution has a zero and a positive entry, or the unconstrained "
